@@ -147,6 +147,62 @@ fn boundary_case(reader: bool, block: usize, j: usize, wh: Where, deliver: usize
     ops
 }
 
+/// ONE delimiter position swept over many offsets from the chunker's current buffer start: valid
+/// records of exactly `offsets[i]` wire bytes, each followed by `FE FD`, all delivered in blocks of
+/// `block` bytes (the whole sequence fits in one block when the offsets add up to less than it).
+/// After every sentinel the buffer starts right behind it, so delimiter number i has its `FE` at
+/// offset `offsets[i]` from the current buffer start.
+fn sweep_case(reader: bool, block: usize, offsets: &[usize], blk_none: bool) -> Vec<String> {
+    let mut parts: Vec<String> = Vec::new();
+    let mut n = 0usize;
+    let mut recs = 0usize;
+    for l in offsets {
+        let p = payload_for(*l);
+        if *l == 0 || wire_len(p) != *l {
+            continue; // no record has exactly this wire length
+        }
+        parts.push(const_wire(0x61, p));
+        parts.push("fefd".into());
+        n += l + 2;
+        recs += 1;
+    }
+    parts.push("0163".into());
+    n += 2;
+    let mut ops: Vec<String> = vec!["terse".into()];
+    ops.push(format!("stream {}", parts.join("+")));
+    ops.push(format!("script d{}*{}", block, n + 1));
+    if reader && blk_none {
+        ops.push("block none".into());
+    } else {
+        ops.push(format!("block {}", block));
+    }
+    if reader {
+        ops.push("judge keepgoing".into());
+        ops.push(format!("nextall {} 2", recs + 4));
+    } else {
+        ops.push(format!("drain {} 2", 3 * recs + n / block.max(2) * 2 + 12));
+    }
+    ops
+}
+
+/// offsets `m*unit - 1` (the FE is the last byte of a `unit`-sized strip), `m*unit - 2`, `m*unit`
+fn strip_offsets(units: &[usize], limit: usize) -> Vec<usize> {
+    let mut v = Vec::new();
+    let mut total = 0usize;
+    for u in units {
+        for o in [u - 1, u - 2, *u] {
+            if total + o + 2 <= limit {
+                v.push(o);
+                total += o + 2;
+            }
+        }
+    }
+    v
+}
+
+const POW2_UNITS: [usize; 13] = [64, 128, 256, 512, 1024, 2048, 4096, 8192, 16384, 32768, 65536, 131072, 262144];
+const POW3_UNITS: [usize; 12] = [192, 384, 768, 1536, 3072, 6144, 12288, 24576, 49152, 98304, 196608, 393216];
+
 /// `n` tiny records (or `n` delimiters in a row) in one stream.
 fn many_records_case(reader: bool, n: usize, kind: u64, block: usize, quiet: bool) -> Vec<String> {
     let mut ops: Vec<String> = vec!["terse".into()];
@@ -236,6 +292,47 @@ fn enumerated_for(reader: bool, thorough: bool) -> Vec<Vec<String>> {
         cases.push(boundary_case(reader, 524288, 3, Where::Carry, 1 << 20, true));
     }
     cases.push(boundary_case(reader, 524288, 1, Where::Carry, 524288, true));
+    // ---- one delimiter swept over strip boundaries inside large blocks
+    let only_minus1 = |units: &[usize], limit: usize| -> Vec<usize> {
+        let mut v = Vec::new();
+        let mut total = 0;
+        for u in units {
+            if total + u + 1 <= limit {
+                v.push(u - 1);
+                total += u + 1;
+            }
+        }
+        v
+    };
+    cases.push(sweep_case(reader, 524288, &only_minus1(&POW3_UNITS[4..], 520000), true));
+    cases.push(sweep_case(reader, 65536, &only_minus1(&POW3_UNITS[4..9], 65000), false));
+    cases.push(sweep_case(reader, 524288, &only_minus1(&POW2_UNITS[5..], 520000), false));
+    if thorough {
+        for block in [65536usize, 131072, 524288, 1 << 20] {
+            cases.push(sweep_case(reader, block, &strip_offsets(&POW3_UNITS, block - 8), false));
+            cases.push(sweep_case(reader, block, &strip_offsets(&POW2_UNITS, block - 8), false));
+            let rev3: Vec<usize> = POW3_UNITS.iter().rev().copied().collect();
+            cases.push(sweep_case(reader, block, &strip_offsets(&rev3, block - 8), false));
+            let rev2: Vec<usize> = POW2_UNITS.iter().rev().copied().collect();
+            cases.push(sweep_case(reader, block, &strip_offsets(&rev2, block - 8), false));
+            // multiples of one unit: 2u-1, 3u-1, ...
+            for u in [4096usize, 16384, 49152, 65536] {
+                let offs: Vec<usize> = (1..=8).map(|m| m * u - 1).filter(|o| *o + 2 < block).collect();
+                if offs.len() >= 2 {
+                    // spread over several blocks: each multiple is counted from a fresh buffer start
+                    let mut o2 = Vec::new();
+                    let mut total = 0;
+                    for o in offs.iter().rev() {
+                        if total + o + 2 <= 2 * block {
+                            o2.push(*o);
+                            total += o + 2;
+                        }
+                    }
+                    cases.push(sweep_case(reader, block, &o2, false));
+                }
+            }
+        }
+    }
     // ---- many records
     cases.push(many_records_case(reader, 1100, 0, 4096, false));
     cases.push(many_records_case(reader, 1100, 1, 64, false));
@@ -250,7 +347,24 @@ fn enumerated_for(reader: bool, thorough: bool) -> Vec<Vec<String>> {
 }
 
 fn gen_for(reader: bool, rng: &mut Rng, thorough: bool) -> Vec<String> {
-    match rng.below(4) {
+    match rng.below(5) {
+        4 => {
+            // a delimiter swept over random and strip-aligned offsets inside one large block
+            let block = *rng.pick(&[65536usize, 131072, 524288, 524288]);
+            let mut offs = Vec::new();
+            let mut total = 0usize;
+            let limit = if thorough { block - 8 } else { block.min(200000) };
+            for _ in 0..12 {
+                let unit = *rng.pick(&[64usize, 4096, 8192, 16384, 32768, 49152, 65536, 3072, 12288]);
+                let m = rng.range(1, 6) as usize;
+                let o = (m * unit + *rng.pick(&[0usize, 0, 0, 1, 2])).saturating_sub(*rng.pick(&[1usize, 1, 1, 2, 0]));
+                if o > 0 && total + o + 2 <= limit {
+                    offs.push(o);
+                    total += o + 2;
+                }
+            }
+            sweep_case(reader, block, &offs, block == 524288 && rng.chance(1, 2))
+        }
         0 | 1 => {
             let k = near_of(rng, &[255usize, 256, 511, 1023, 1023, 1024, 1024, 2047, 4095, 4096], 0);
             let block = *rng.pick(&[3usize, 4, 7, 8, 64, 255, 256, 4095, 4096, 8191]);
